@@ -9,6 +9,8 @@ for every datagram of the send phase, and replay of ANY datagram recorded in
 the send phase at two later points (right after the send phase, after the
 macro step).
 """
+import struct
+
 from mc import core, explore
 from mc.world import World
 from mc.pair import DeliveryMonitor, app_send, payload
@@ -18,6 +20,14 @@ LEVEL = "model_checking"
 
 SIZES = {"small": 40, "empty": 0, "frag2": 1700, "frag3": 2600}
 FATES = ["dup", "delay2", "delay8", "delay70", "drop"]
+
+
+TIER = ["quick"]
+
+
+def scenario_init():
+    import os
+    TIER[0] = os.environ.get("_C04_TIER", "quick")
 
 
 def scenario(params, ch):
@@ -52,9 +62,33 @@ def scenario(params, ch):
         if blackout:
             # acks towards the sender are lost for a while: the sender retransmits
             w.start_blackout("s2c" if sender == "c" else "c2s", blackout)
-        w.run(80)
+
+        # lag points: a copy of the first data datagram may be replayed exactly when the receiver's newest
+        # accepted datagram is L ahead of it, for every L up to 40 (window edge 31/32/33 included)
+        first = next((d for d in recorded if (d.src == "s") == (sender == "s") and d.data[12] in (6, 7)), None)
+        offered = set()
+        lag_set = None if TIER[0] == "thorough" else {1, 31, 32, 33}
+
+        def run_lag(n):
+            for _ in range(n):
+                w.tick()
+                if first is None:
+                    continue
+                rc = w.server_conn(0) if sender == "c" else w.clients[0].conn
+                if rc is None:
+                    continue
+                seq = struct.unpack(">H", first.data[8:10])[0]
+                lag = int(rc.bitfield_pkt.current_seqnum) - seq
+                if 0 < lag <= 40 and lag not in offered and (lag_set is None or lag in lag_set):
+                    offered.add(lag)
+                    if ch.choose("replay-lag", [("no replay at lag %d" % lag, 0), ("replay #%d at lag %d" % (first.id, lag), 1)]):
+                        if first.src == "s":
+                            w.inject("c0", first.data, note="replay")
+                        else:
+                            w.inject("s", first.data, client_addr=w.clients[0].addr, note="replay")
+        run_lag(80)
         if macro == "idle4":
-            w.run(256)
+            run_lag(256)
         elif macro == "burst":
             k = 0
             for t in range(10):
@@ -111,6 +145,8 @@ def run(tier, seed):
         k = seed % len(plist)
         plist = plist[k:] + plist[:k]
     bound = 2
+    import os
+    os.environ["_C04_TIER"] = tier
     st = explore.explore_all("checks.c04", "scenario", plist, bound,
                              time_budget=(150 if tier == "quick" else 1500))
     for v in st.violations:
